@@ -51,6 +51,12 @@ ASSUMPTIONS = [
     "requests other than stop during the sync wait of a show are outside the generated space",
     "requests after the end of a show are only generated through the show_player (a config player may forward "
     "any event at any time); for API-driven instances the harness does not call methods of an ended RunningShow",
+    "a repeated identical show_player play request (same key, equal config, no played/stopped events) is only "
+    "generated while the show still waits for its sync point; whatever the player does with it, the show has to "
+    "start at a multiple of sync_ms (a replaced waiter may run the start step once more at that same instant); "
+    "repeats that are processed after the show started or after its sync point passed are discarded",
+    "a fade started by a step is anchored at the step's instant: the request instant for advance/step_back/resume/"
+    "play, the nominal step time for timed steps (anything between nominal and actual for a step late after a stall)",
     "call_soon FIFO order is kept; time does not advance inside one loop iteration",
 ]
 STATE_ABSTRACTION = "(sorted statuses of the live instances, last request kind, number of lights with a stack)"
